@@ -35,6 +35,16 @@
     (TrLen Int) (TrA (Array Int Val)) (TrB (Array Int Val))   ; ghost trace of callback invocations
   ))))
 
+; ---- numbers ---------------------------------------------------------------
+(define-fun MAXINT () Int 9223372036854775807)
+(define-fun MININT () Int (- 9223372036854775808))
+(define-fun inInt ((x Int)) Bool (and (<= MININT x) (<= x MAXINT)))
+(define-fun wrap64 ((x Int)) Int (- (mod (+ x 9223372036854775808) 18446744073709551616) 9223372036854775808))
+; Go truncated division / remainder on mathematical ints
+(define-fun godiv ((a Int) (b Int)) Int (ite (>= a 0) (div a b) (- (div (- a) b))))
+(define-fun gomod ((a Int) (b Int)) Int (- a (* b (godiv a b))))
+
+
 ; allocation kinds
 (define-fun KLIST () Int 1)
 (define-fun KOBJ  () Int 2)
@@ -43,6 +53,8 @@
 (define-fun KCELL () Int 5)
 (define-fun KDLIST () Int 6)   ; derived (user) type embedding a List
 (define-fun KDOBJ  () Int 7)   ; derived (user) type embedding an Object
+(define-fun KNARR () Int 10)  ; native backing array ([]any, []int ...)
+(define-fun KNMAP () Int 11)  ; native map
 (define-fun KNEW () Int 8)    ; container under construction (not yet published)
 (define-fun KDEAD () Int 9)    ; non-escaping temporary whose storage was adopted
 
@@ -89,7 +101,7 @@
 (define-fun invL ((h Heap) (r Int)) Bool
   (and (< 0 r) (< r (next h))
        (= (select (Kind h) r) KLIST)
-       (<= 0 (select (Llen h) r)) (<= (select (Llen h) r) (select (Lcap h) r))
+       (<= 0 (select (Llen h) r)) (<= (select (Llen h) r) (select (Lcap h) r)) (<= (select (Lcap h) r) MAXINT)
        (= (select (Loff h) r) 0)     ; list spines start at offset 0 (see DESIGN 5.2)
        (< 0 (select (Larr h) r)) (< (select (Larr h) r) (next h))
        (= (select (Kind h) (select (Larr h) r)) KARR)
@@ -133,15 +145,6 @@
 (assert (forall ((r Int)) (! (=> (plain r) (= (impl r) r)) :pattern ((plain r)))))
 (assert (forall ((r Int)) (! (=> (plain r) (= (impl r) r)) :pattern ((impl r)))))
 
-; ---- numbers ---------------------------------------------------------------
-(define-fun MAXINT () Int 9223372036854775807)
-(define-fun MININT () Int (- 9223372036854775808))
-(define-fun inInt ((x Int)) Bool (and (<= MININT x) (<= x MAXINT)))
-(define-fun wrap64 ((x Int)) Int (- (mod (+ x 9223372036854775808) 18446744073709551616) 9223372036854775808))
-; Go truncated division / remainder on mathematical ints
-(define-fun godiv ((a Int) (b Int)) Int (ite (>= a 0) (div a b) (- (div (- a) b))))
-(define-fun gomod ((a Int) (b Int)) Int (- a (* b (godiv a b))))
-
 ; float64: uninterpreted, with a total preorder on the values that occur
 (declare-fun fle (F64 F64) Bool)
 (define-fun flt ((a F64) (b F64)) Bool (not (fle b a)))
@@ -182,3 +185,34 @@
 (assert (= (slen str_empty) 0))
 (assert (forall ((s Str)) (! (<= 0 (slen s)) :pattern ((slen s)))))
 (assert (forall ((s Str) (i Int)) (! (and (<= 0 (at s i)) (<= (at s i) 255)) :pattern ((at s i)))))
+
+; constructor tests usable from contracts
+(define-fun isVNil ((v Val)) Bool ((_ is VNil) v))
+(define-fun isVStr ((v Val)) Bool ((_ is VStr) v))
+(define-fun isVBool ((v Val)) Bool ((_ is VBool) v))
+(define-fun isVInt ((v Val)) Bool ((_ is VInt) v))
+(define-fun isVFloat ((v Val)) Bool ((_ is VFloat) v))
+(define-fun isVIntK ((v Val)) Bool ((_ is VIntK) v))
+(define-fun isVF32 ((v Val)) Bool ((_ is VF32) v))
+(define-fun isVList ((v Val)) Bool ((_ is VList) v))
+(define-fun isVObj ((v Val)) Bool ((_ is VObj) v))
+(define-fun isWNil ((v Val)) Bool ((_ is WNil) v))
+(define-fun isWStr ((v Val)) Bool ((_ is WStr) v))
+(define-fun isWBool ((v Val)) Bool ((_ is WBool) v))
+(define-fun isWInt ((v Val)) Bool ((_ is WInt) v))
+(define-fun isWFloat ((v Val)) Bool ((_ is WFloat) v))
+(define-fun isVSl ((v Val)) Bool ((_ is VSl) v))
+(define-fun isVMp ((v Val)) Bool ((_ is VMp) v))
+(define-fun isVErr ((v Val)) Bool ((_ is VErr) v))
+
+; every list of h0 is still a list of h with the same header and the same elements
+(define-fun listsUnchanged ((h Heap) (h0 Heap)) Bool
+  (forall ((r Int)) (! (=> (= (select (Kind h0) r) KLIST)
+     (and (= (select (Kind h) r) KLIST)
+          (= (select (Larr h) r) (select (Larr h0) r)) (= (select (Loff h) r) (select (Loff h0) r))
+          (= (select (Llen h) r) (select (Llen h0) r)) (= (select (Lcap h) r) (select (Lcap h0) r))
+          (= (select (Lptr h) r) (select (Lptr h0) r))
+          (forall ((j Int)) (! (=> (and (<= 0 j) (< j (select (Llen h0) r)))
+                                   (= (select (select (Mem h) (select (Larr h0) r)) j) (select (select (Mem h0) (select (Larr h0) r)) j)))
+                               :pattern ((select (select (Mem h) (select (Larr h0) r)) j))))))
+     :pattern ((select (Kind h0) r)))))
